@@ -123,3 +123,6 @@ Proof. unfold is_bytes, dropN. generalize (N.to_nat n) as k. intros k H. revert 
   induction H; intros [|k]; cbn; auto. Qed.
 Lemma is_bytes_repeatN n : is_bytes (repeatN 255 n).
 Proof. unfold is_bytes, repeatN. apply Forall_forall. intros x Hx. apply repeat_spec in Hx. subst. unfold is_byte. lia. Qed.
+Lemma is_bytesb_ok (l : bytes) : is_bytesb l = true -> is_bytes l.
+Proof. unfold is_bytesb, is_bytes. intros H. apply Forall_forall. intros x Hx.
+  eapply forallb_forall in H; [|exact Hx]. unfold is_byteb in H. unfold is_byte. apply N.ltb_lt. exact H. Qed.
